@@ -1092,6 +1092,40 @@ fn judge_body(f: &Facts, obs: &BodyObs) -> Result<(), Failure> {
     }
     // Each poll of the outer body may look at the inner one once more (a consumer that keeps polling after a
     // trailers frame, as tonic's Streaming does, makes that many); what must not happen is a loop inside one poll.
+    // ---- a complete message is not held back: whenever the bytes received so far end exactly at the end of a
+    // message frame (everything buffered is complete messages), those messages have been handed out before the
+    // inner body is asked for more - a caller waiting for that message before it sends anything else (ping-pong)
+    // would otherwise wait forever. Judged for well-formed bodies without an injected error.
+    if matches!(f.class, Class::WellFormed(_)) && !inner_err {
+        let mut ends = vec![];
+        let mut off = 0usize;
+        for (_, p) in &f.r.payloads {
+            off += 5 + p.len();
+            ends.push(off);
+        }
+        let mut out_by_polls: Vec<(usize, usize)> = vec![];
+        let mut total = 0usize;
+        for e in &obs.evs {
+            if let EvK::Data(d) = &e.k {
+                total += d.len();
+                out_by_polls.push((e.inner_polls, total));
+            }
+        }
+        for q in 1..f.sc.cum.len() {
+            let dq = f.sc.cum[q];
+            if dq == f.sc.cum[q - 1] || dq == 0 || dq > f.r.msgs_end || !ends.contains(&dq) {
+                continue;
+            }
+            let got = out_by_polls.iter().filter(|(p, _)| *p <= q).map(|(_, t)| *t).max().unwrap_or(0);
+            ensure!(
+                got >= dq,
+                "C17/complete-message-held-back",
+                "after {q} polls of the inner body exactly {dq} bytes (= whole message frames) had arrived, but only {got} bytes of DATA had been handed out when the inner body was polled again (chunks {:?}): {}",
+                chunk_lens(),
+                describe()
+            );
+        }
+    }
     ensure!(
         obs.polls_after_end <= 8 + obs.evs.len(),
         format!("C17/inner-polled-after-end/{cname}"),
@@ -1498,6 +1532,8 @@ fn tr_entry() -> BoxedStrategy<Tr> {
                     2 => "[!-~]{1,5}( [!-~]{1,5}){1,2}".prop_map(|s| s),
                     1 => Just(String::new()),
                     1 => Just("é:ü".to_string()),
+                    // blanks at the end (and, behind the optional separator space, at the start) belong to the value
+                    1 => "[a-z]{1,4}[ \t]{1,2}".prop_map(|s| s),
                 ]
                 .boxed()
             };
